@@ -4,12 +4,15 @@ import (
 	"bytes"
 	"fmt"
 	"runtime"
+	"sort"
 	"sync"
 
 	"github.com/xinchentechnote/fin-proto-go/codec"
 
+	"verif/engine/bind"
 	"verif/engine/ev"
 	rm "verif/engine/refmodel"
+	"verif/engine/valenum"
 )
 
 func init() {
@@ -123,7 +126,7 @@ func runC14(r *ev.Run, thorough bool) {
 	if thorough {
 		maxLen = 3
 	}
-	r.Rule = fmt.Sprintf("4 services x ALL byte strings of length <= %d; byte-sum automata 256x256 and CRC16 automaton (65,536 states x %s next bytes, each state reached by its 2-byte witness) against bitwise references; long inputs: uniform runs b^n for b in %s at n = ceil(2^31/b)-1,+0,+1 (<=32 MiB; hidden accumulator wider than the output), ramps and alternations at lengths 2^k-1,2^k,2^k+1 up to 2^%d; EVERY length 4..1200 (9000 in thorough) for uniform FF, ramp and alternating patterns; every case on a partially consumed buffer, checking value, range 0..255 for byte sums, buffer untouched, second call equal; distinct = (algorithm,input)", maxLen, map[bool]string{false: "16", true: "256"}[thorough], map[bool]string{false: "{80,C0,FF}", true: "40..FF"}[thorough], map[bool]int{false: 16, true: 24}[thorough])
+	r.Rule = fmt.Sprintf("4 services x ALL byte strings of length <= %d; byte-sum automata 256x256 and CRC16 automaton (65,536 states x %s next bytes, each state reached by its 2-byte witness) against bitwise references; long inputs: uniform runs b^n for b in %s at n = ceil(2^31/b)-1,+0,+1 (<=32 MiB; hidden accumulator wider than the output), ramps and alternations at lengths 2^k-1,2^k,2^k+1 up to 2^%d; EVERY length 4..1200 (9000 in thorough) for uniform FF, ramp and alternating patterns; PROTOCOL-SHAPED inputs: the reference encodings of every message type at bases Z/D/L and of every frame/extended message under every registered key, whole, minus their last 1/2/4/8 bytes, minus their first 4 bytes (every prefix in thorough); every case on a partially consumed buffer, checking value, range 0..255 for byte sums, buffer untouched, second call equal; distinct = (algorithm,input)", maxLen, map[bool]string{false: "16", true: "256"}[thorough], map[bool]string{false: "{80,C0,FF}", true: "40..FF"}[thorough], map[bool]int{false: 16, true: 24}[thorough])
 	r.Assume("reference CRC-16/MODBUS, CRC-32/IEEE and byte sums are the bitwise implementations in engine/refmodel, checked against the published check values for \"123456789\"")
 	// self-check of the references against the published check values
 	if rm.CRC16Modbus([]byte("123456789")) != 0x4B37 || rm.CRC32IEEE([]byte("123456789")) != 0xCBF43926 {
@@ -257,6 +260,74 @@ func runC14(r *ev.Run, thorough bool) {
 				}
 			})
 		}
+	}
+	// protocol-shaped inputs: what a checksum service is given in practice is a frame, not a pattern. For every
+	// message type the reference encodings of the bases Z, D, L (for frames / extended messages: of every
+	// registered key at Z and D) are fed to all four services whole, without their last 4 / last 1 bytes
+	// (header+body without a trailer), without their first 4 bytes, and (thorough) at every prefix length.
+	for _, t := range bind.Types {
+		t := t
+		jobs = append(jobs, func(l *ev.Local) {
+			var wires [][]byte
+			add := func(v *rm.Value) {
+				if w, err := rm.EncodeBytes(v); err == nil && len(w) > 0 && len(w) <= 1<<16 {
+					wires = append(wires, w)
+				}
+			}
+			add(rm.Zero(t))
+			add(valenum.Distinct(t))
+			add(valenum.Long(t))
+			if di := t.DynField(); di >= 0 {
+				tab := t.Proto.Table(t.Fields[di].Factory)
+				keys := make([]string, 0, len(tab.Entries))
+				for k := range tab.Entries {
+					keys = append(keys, k)
+				}
+				sort.Strings(keys)
+				for _, k := range keys {
+					add(valenum.WithKey(t, k, "Z"))
+					add(valenum.WithKey(t, k, "D"))
+				}
+			}
+			seen := map[uint64]struct{}{}
+			for _, w := range wires {
+				var ins [][]byte
+				if thorough {
+					for n := 1; n <= len(w); n++ {
+						ins = append(ins, w[:n])
+					}
+				} else {
+					ins = append(ins, w)
+					for _, cut := range []int{1, 2, 4, 8} {
+						if len(w) > cut {
+							ins = append(ins, w[:len(w)-cut])
+						}
+					}
+				}
+				if len(w) > 4 {
+					ins = append(ins, w[4:])
+				}
+				for _, in := range ins {
+					h := ev.H(string(in))
+					if _, ok := seen[h]; ok {
+						continue
+					}
+					seen[h] = struct{}{}
+					for _, alg := range sumAlgs {
+						l.Evals++
+						l.Transitions++
+						l.Traces++
+						r.SetDistinctAdd(1)
+						if v := sumOne(alg, in, nil); v != nil {
+							v.Subject = alg + " protocol-shaped"
+							v.Detail = "input = reference encoding of " + t.QName() + " (or a prefix/suffix of it): " + v.Detail
+							r.Violate(v)
+							return
+						}
+					}
+				}
+			}
+		})
 	}
 	ch := make(chan job)
 	var wg sync.WaitGroup
